@@ -59,7 +59,7 @@ def run(ctx, res):
     st_before = M.StiffnessTensors()
     for k in range(n_sc):
         sc = solver.make_scenario(rng, k, nmax=12 if not ctx["thorough"] else 32, regimes=(4, 6))
-        phi_ol = float(rng.choice([0.7, 0.5, 0.9, rng.uniform(0.05, 0.95)]))
+        phi_ol = float([0.7, 1.0, 0.0, 0.5, 0.9, rng.uniform(0.05, 0.95)][k % 6])   # incl. a phase with zero volume fraction
         sc["phase_fractions"] = (phi_ol, 1.0 - phi_ol)
         phi = sc["phase_fractions"][sc["phase"]]
         rep = solver.scenario_json(sc)
